@@ -3,6 +3,7 @@ that stands behind the assumed numbering lemma."""
 from __future__ import annotations
 import itertools
 from bounded import realrun
+from harness import loader
 
 
 def projects():
@@ -195,4 +196,40 @@ def page_files():
         if bad:
             return {"confirmed": True, "input": inp, "actual": bad[:6], "expected": "one file per page object, live links, one id per specific procedure",
                     "how": f"end-to-end run ({n} links on {npages} pages followed), file counts per directory against the project lists, ids of the generic interface page"}
+    return None
+
+
+GRAPH_FILES = {
+    "src/conv.f90": ("module conv_mod\n  implicit none\ncontains\n  subroutine convert(x)\n    real :: x\n    call helper(x)\n  end subroutine convert\n  subroutine helper(x)\n    real :: x\n  end subroutine helper\nend module conv_mod\n"
+                     "module convert_tools\n  use conv_mod\n  implicit none\n  type :: convert\n    integer :: c\n  end type convert\nend module convert_tools\n"),
+    "src/main.f90": "program convert\n  use conv_mod, only: helper\n  use convert_tools\n  real :: y\n  call helper(y)\nend program convert\n",
+}
+
+
+def graph_files():
+    """graphs are saved under their identifier: distinct (entity, kind of graph) pairs must get distinct file names - also for entities of different kinds that share a name
+    (a program and a module procedure `convert`, a type `convert`)"""
+    import contextlib, io
+    graphs = loader.import_repo("ford.graphs")
+    proj = realrun.build_project(GRAPH_FILES, display=["public", "private", "protected"], proc_internals=True, graph=True)
+    with contextlib.redirect_stdout(io.StringIO()), contextlib.redirect_stderr(io.StringIO()):
+        gm = graphs.GraphManager("", "..", False, False, save_graphs=False)
+        for lst in ("modules", "submodules", "programs", "procedures", "types", "files"):
+            for e in getattr(proj, lst):
+                gm.register(e)
+        gm.graph_all()
+    seen = {}
+    for e in gm.graph_objs:
+        for gname in ("usesgraph", "usedbygraph", "inhergraph", "inherbygraph", "callsgraph", "calledbygraph", "afferentgraph", "efferentgraph"):
+            g = getattr(e, gname, None)
+            if g is None or not hasattr(g, "imgfile"):
+                continue
+            key = g.imgfile
+            who = (type(e).__name__, e.name, gname)
+            if key in seen and seen[key] != who:
+                return {"confirmed": True, "input": {"files": GRAPH_FILES}, "actual": {key: [seen[key], who]}, "expected": "one file name per (entity, graph) pair",
+                        "how": "real graph objects (GraphManager.graph_all): the `imgfile` under which each graph is saved"}
+            seen[key] = who
+    if len(seen) < 8:
+        return {"confirmed": True, "input": {"files": GRAPH_FILES}, "actual": f"only {len(seen)} graphs were built", "expected": "graphs for three modules' worth of entities", "how": "GraphManager.graph_all"}
     return None
